@@ -422,6 +422,9 @@ func c19casesG(e vt.Env, yield func(vt.Case) bool) bool {
 	}}) {
 		return false
 	}
+	if !yield(vt.Case{ID: "G/options", Run: c19getterOptions}) {
+		return false
+	}
 	return yield(vt.Case{ID: "G/t/bubble", Run: func(c *vt.Ctx) {
 		t := c19tally{}
 		peer.Bubble(c, sched.New(), func() {
@@ -432,4 +435,50 @@ func c19casesG(e vt.Env, yield func(vt.Case) bool) bool {
 		})
 		t.flush(c)
 	}})
+}
+
+// c19getterOptions: the server options handed to a Getter (and to a Bridge's GET side)
+// are the options of the server it runs: with DisableBuiltin the rpc.* names are ordinary
+// methods of the assigner, without it they are withheld; each GET is still one call.
+func c19getterOptions(c *vt.Ctx) {
+	asg := handler.Map{
+		"rpc.status":     jrpc2.Handler(func(context.Context, *jrpc2.Request) (any, error) { return "mine:status", nil }),
+		"rpc.serverInfo": jrpc2.Handler(func(context.Context, *jrpc2.Request) (any, error) { return "mine:serverInfo", nil }),
+		"plain":          jrpc2.Handler(func(context.Context, *jrpc2.Request) (any, error) { return "mine:plain", nil }),
+	}
+	get := func(h http.Handler, path string) (int, string) {
+		rec := httptest.NewRecorder()
+		h.ServeHTTP(rec, httptest.NewRequest("GET", "http://h.invalid"+path, nil))
+		return rec.Code, strings.TrimSpace(rec.Body.String())
+	}
+	type want struct {
+		path   string
+		status int
+		body   string // "" = any valid JSON
+	}
+	run := func(what string, h http.Handler, wants []want) {
+		for _, w := range wants {
+			code, body := get(h, w.path)
+			if code != w.status || !json.Valid([]byte(body)) || (w.body != "" && body != w.body) {
+				c.Failf("G/options %s: GET %s answered %d %q, want %d %s", what, w.path, code, body, w.status, map[bool]string{true: "with valid JSON", false: w.body}[w.body == ""])
+			}
+			c.Eval(1)
+			c.Count("getter_option_requests", 1)
+		}
+	}
+	disabled := []want{{"/rpc.status", 200, `"mine:status"`}, {"/rpc.serverInfo", 200, `"mine:serverInfo"`}, {"/plain", 200, `"mine:plain"`}, {"/rpc.other", 404, ""}}
+	enabled := []want{{"/rpc.status", 404, ""}, {"/plain", 200, `"mine:plain"`}, {"/rpc.other", 404, ""}}
+	g1 := jhttp.NewGetter(asg, &jhttp.GetterOptions{Server: &jrpc2.ServerOptions{DisableBuiltin: true}})
+	run("Getter with DisableBuiltin", g1, disabled)
+	g1.Close()
+	g2 := jhttp.NewGetter(asg, &jhttp.GetterOptions{Server: &jrpc2.ServerOptions{}})
+	run("Getter with built-ins", g2, enabled)
+	if code, body := get(g2, "/rpc.serverInfo"); code != 200 || !strings.HasPrefix(body, "{") {
+		c.Failf("G/options Getter with built-ins: GET /rpc.serverInfo answered %d %q, want 200 with the built-in's object", code, body)
+	}
+	g2.Close()
+	b1 := jhttp.NewBridge(asg, &jhttp.BridgeOptions{Server: &jrpc2.ServerOptions{DisableBuiltin: true}, ParseGETRequest: jhttp.ParseQuery})
+	run("Bridge GET side with DisableBuiltin", b1, disabled)
+	b1.Close()
+	c.Distinct("G/options")
 }
